@@ -1,5 +1,5 @@
 CONSTANTS MaxOps = 3  Bug = ""  Emit = TRUE
-CONSTANTS Mods <- MCMods  Msgs <- MCMsgs
+CONSTANTS Mods <- MCMods1  Msgs <- MCMsgs2
 INIT Init
 NEXT Next
 INVARIANT NoMismatch
